@@ -85,12 +85,15 @@ def traverse (c : Circuit) (bfs inverse : Bool) (start : Option (List Label)) (t
     else
       .ok (s.log ++ (c.labels.filter (fun l => s.st l = .unv)).map Ev.unvisited ++ [Ev.done])
 
-/-- `check_circuit_has_no_cycles`: DFS from the outputs whose discover hook raises
-`CircuitValidationError` on an ENTERED gate. `true` = the check raises. -/
-def hasCycleCheck (c : Circuit) : Except String Bool :=
-  match traverse c false false none false true with
+/-- `check_circuit_has_no_cycles(circuit, start_gates)`: DFS from the start gates (the outputs when
+`None`) whose discover hook raises `CircuitValidationError` on an ENTERED gate. `true` = the check raises. -/
+def hasCycleCheckFrom (c : Circuit) (start : Option (List Label)) : Except String Bool :=
+  match traverse c false false start false true with
   | .error "CircuitValidationError" => .ok true
   | .error e => .error e
   | .ok _ => .ok false
+
+/-- the default call (`start_gates=None`): from the outputs -/
+abbrev hasCycleCheck (c : Circuit) : Except String Bool := hasCycleCheckFrom c none
 
 end Cirbo
